@@ -44,7 +44,11 @@ type propCfg struct {
 	noInstr   bool  // harness runs on un-instrumented code
 }
 
-var props = map[string]*propCfg{}
+var props = map[string]*propCfg{
+	"C11": {level: "fault_enumeration", quickWall: 25, thorWall: 300, chunk: 2000},
+	"C07": {level: "exploration", quickWall: 25, thorWall: 900, chunk: 1000},
+	"C10": {level: "exploration", quickWall: 25, thorWall: 900, chunk: 1000},
+}
 
 func cfgOf(id string) *propCfg {
 	if c, ok := props[id]; ok {
